@@ -27,7 +27,14 @@ AllScores(pssm, seq, W) == [i \in 1..NScores(Len(seq), Len(pssm)) |-> ScoreOf(ps
 
 ScanInit(pssm, seq, thr, W) ==
   LET sc == AllScores(pssm, seq, W) IN
-  [scores |-> sc, remaining |-> {i \in 0..(Len(sc) - 1) : sc[i + 1] >= thr}, live |-> TRUE, overflow |-> FALSE]
+  [scores |-> sc, remaining |-> {i \in 0..(Len(sc) - 1) : sc[i + 1] >= thr}, live |-> TRUE, overflow |-> FALSE, thr |-> thr]
+
+\* Raising the threshold of a live scanner (Scanner::threshold is a plain setter and can be called between next() calls):
+\* the best hit asked for afterwards must respect the threshold then in force, so the positions still to be reported
+\* shrink to those at or above it.  (Lowering it mid-way is left unspecified: blocks already passed are not revisited; so
+\* is next() after a raise, which still hands out the hits it had buffered.)
+RaiseOK(s, t) == s.live /\ t >= s.thr
+RaiseStep(s, t) == [s EXCEPT !.thr = t, !.remaining = {i \in s.remaining : s.scores[i + 1] >= t}]
 
 \* outcome o = [ret |-> "hit"|"none"|..., pos, score]
 NextOK(s, o) ==
